@@ -185,7 +185,7 @@ def run_direct_case(ctx, pool, c, reqs):
 
 
 def run_direct(ctx: Ctx):
-    n = ctx.scale(6000, 200000)
+    n = ctx.scale(12000, 300000)
     reqs = []
     for _ in range(n):
         pool = mk_pool(ctx.rng)
@@ -387,7 +387,7 @@ def check_run(ctx, pool, case, recs, run_err, rep, reqs, tagp):
 
 
 def run_runs(ctx: Ctx):
-    n = ctx.scale(60, 1500)
+    n = ctx.scale(100, 2000)
     reqs = []
     logging.disable(logging.CRITICAL)
     try:
